@@ -86,6 +86,12 @@ struct Inner {
     /// wakes on a waker none of whose library-held clones is alive any more (bookkeeping used after free)
     dead_waker_uses: u32,
     waker_lib_clones: Vec<i64>,
+    /// per waker: the thread it belongs to, and whether that thread has switched to a newer waker since
+    waker_owner: Vec<usize>,
+    waker_superseded: Vec<bool>,
+    dead_waker_uses_superseded: u32,
+    /// scheduling points executed by each thread itself
+    steps_of:     Vec<u32>,
     /// threads that asked to let the others run first (harness-level back-off of a retry loop)
     yielding:     Vec<bool>,
 }
@@ -219,6 +225,8 @@ pub struct Outcome {
     pub switches_inside_ops: u32,
     pub wakes: Vec<Vec<(u64, usize)>>,
     pub dead_waker_uses: u32,
+    /// ... of which: the task had switched to a newer waker (the channel dropped the old one while replacing it)
+    pub dead_waker_uses_superseded: u32,
 }
 
 impl Sched {
@@ -271,7 +279,11 @@ impl Sched {
                 wakes: vec![vec![]; n],
                 dead_waker_uses: 0,
                 waker_lib_clones: vec![],
+                waker_owner: vec![],
+                waker_superseded: vec![],
+                dead_waker_uses_superseded: 0,
                 yielding: vec![false; n],
+                steps_of: vec![0; n],
             }),
             cvs: (0..n).map(|_| Condvar::new()).collect(),
             ctl: Condvar::new(),
@@ -340,6 +352,7 @@ impl Sched {
             return;
         }
         g.step += 1;
+        g.steps_of[me] += 1;
         for t in 0..g.yielding.len() { if t != me { g.yielding[t] = false; } }
         if g.step > g.max_steps {
             self.abort_now(&mut g, EndState::Budget);
@@ -463,6 +476,7 @@ impl Sched {
     }
 
     pub fn step(&self) -> u32 { self.m.lock().unwrap().step }
+    pub fn steps_of(&self, tid: usize) -> u32 { self.m.lock().unwrap().steps_of[tid] }
 
     fn set_in_op(&self, me: usize, v: bool) { self.m.lock().unwrap().in_op[me] = v; }
 
@@ -523,6 +537,7 @@ impl Sched {
             switches_inside_ops: g.switches_inside_ops,
             wakes: g.wakes.clone(),
             dead_waker_uses: g.dead_waker_uses,
+            dead_waker_uses_superseded: g.dead_waker_uses_superseded,
         }
     }
 }
@@ -543,6 +558,8 @@ impl ThreadCtx {
     /// harness-level scheduling point
     pub fn point(&self, tag: &'static str) { verif::yield_point(tag); }
     pub fn tick(&self) -> u64 { self.sched.tick() }
+    /// scheduling points this thread itself has executed so far
+    pub fn own_steps(&self) -> u32 { self.sched.steps_of(self.tid) }
     pub fn park(&self) -> ParkResult { self.sched.park(self.tid) }
     /// lets the other threads run first; `false` if nobody else can run
     pub fn backoff(&self) -> bool { self.sched.backoff(self.tid) }
@@ -559,7 +576,10 @@ impl ThreadCtx {
     pub fn new_waker(&self) -> std::mem::ManuallyDrop<Waker> {
         let idx = {
             let mut g = self.sched.m.lock().unwrap();
+            for i in 0..g.waker_owner.len() { if g.waker_owner[i] == self.tid { g.waker_superseded[i] = true; } }
             g.waker_lib_clones.push(0);
+            g.waker_owner.push(self.tid);
+            g.waker_superseded.push(false);
             g.waker_lib_clones.len() - 1
         };
         let data = ((idx << 8) | (self.tid & 0xff)) as *const ();
@@ -588,7 +608,7 @@ unsafe fn wk_wake_by_ref(data: *const ()) {
     with_ctx(|s, me| {
         {
             let mut g = s.m.lock().unwrap();
-            if idx < g.waker_lib_clones.len() && g.waker_lib_clones[idx] <= 0 { g.dead_waker_uses += 1; }
+            if idx < g.waker_lib_clones.len() && g.waker_lib_clones[idx] <= 0 { g.dead_waker_uses += 1; if g.waker_superseded[idx] { g.dead_waker_uses_superseded += 1; } }
         }
         s.wake(target, me);
     });
